@@ -327,6 +327,10 @@ INVALID_WF = [
     '<getProperties version="1.7"><br/></getProperties>',
     '<setTextVector device="d" name="n" state="Ok"><oneTexd name="e">v</oneTexd></setTextVector>',
     '<newNumberVector device="d" name="n"><oneNumber name="x">1</oneNumber><oneText name="y">z</oneText></newNumberVector>',
+    # unknown elements whose tag name merely BEGINS like the tag of the valid messages that follow them
+    '<pingReplyq/>',
+    '<pingReplyx7 k="1"/>',
+    '<pingReply2>junk</pingReply2>',
 ]
 
 
